@@ -134,14 +134,14 @@ func c08Programs(seed int64, n int) []*gen.Program {
 	var out []*gen.Program
 	for i := 0; i < n; i++ {
 		cfg := gen.Config{
-			Profile:   []string{"mixed", "buckets", "structural", "overwrite"}[i%4],
+			Profile:   []string{"mixed", "buckets", "structural", "overwrite", "bigkeys"}[i%5],
 			PageSize:  []int{1024, 4096}[(i/4)%2],
 			Txs:       5,
 			OpsPerTx:  8,
 			KeySpace:  60,
 			Reopen:    0.25,
 			Rollback:  0.15,
-			NoBigKeys: true,
+			NoBigKeys: i%5 != 4,
 		}
 		cfg.Opts.Freelist = backends[(i/8)%2]
 		cfg.Opts.NoFreelistSync = (i/16)%2 == 1
